@@ -720,7 +720,7 @@ impl Song {
         // new track ?
         while self.tracks.len() <= self.cur_track {
             // println!("{:?}", v);
-            let trk = Track::new(self.timebase, no as isize - 1);
+            let trk = Track::new(self.timebase, self.tracks.len() as isize - 1); // channel of its own track no
             self.tracks.push(trk);
         }
 
